@@ -599,16 +599,21 @@ func (n *Node) applyBlock(blk *vt.Block) {
 	n.TipHash = blk.Hash()
 	n.TipTs = blk.Ts
 	n.NeedInit = true
+	removed := false
 	for _, h := range blk.TxHashes {
 		if _, ok := n.Pool[h]; ok {
 			delete(n.Pool, h)
-			for i, tx := range n.PoolOrder {
-				if tx.Hash() == h {
-					n.PoolOrder = append(n.PoolOrder[:i:i], n.PoolOrder[i+1:]...)
-					break
-				}
+			removed = true
+		}
+	}
+	if removed { // one pass (pools may hold tens of thousands of transactions)
+		kept := make([]vt.Tx, 0, len(n.Pool))
+		for _, tx := range n.PoolOrder {
+			if _, ok := n.Pool[tx.Hash()]; ok {
+				kept = append(kept, tx)
 			}
 		}
+		n.PoolOrder = kept
 	}
 }
 
